@@ -328,6 +328,8 @@ Theorem Rstep_sim nonorm r m o :
   Rsim nonorm (rstep29 r o) (sstep HResp nonorm m (sop_of o)).
 Proof.
   intros HS Hk Hwf. pose proof HS as (Hd & Hv & Hc & Hig).
+  assert (Hte : peekAllArgs (hh (rh r)) strTransferEncoding = []).
+  { change (peekAllArgs (hh (rh r)) strTransferEncoding) with (rvals r strTransferEncoding). rewrite Hv. now apply Hig. }
   split; [|split; [|split]].
   - rewrite <- Hd. apply rflags_norm. apply (rstep29_flags nonorm); assumption.
   - intros c'. rewrite (rstep29_exact nonorm r o Hd Hk).
@@ -575,7 +577,7 @@ Lemma QSetExact_inv q c v :
 Proof.
   intros Hok Hnc Hun. unfold QSetExact.
   beq_case c strContentType E1; [split; [exact Hnc|exact Hun]|].
-  beq_case c strContentLength E2; [destruct (parseContentLength v); split; assumption|].
+  beq_case c strContentLength E2; [destruct (parseContentLength v); [split; [cbn; apply no_cookie_del; exact Hnc|exact Hun]|split; assumption]|].
   beq_case c strConnection E4.
   { subst c. destruct (beq strClose v); [split; [cbn; apply no_cookie_del; exact Hnc|exact Hun]|]. unfold hResetConnectionClose.
     destruct (hclose (qh q)); (split; [cbn; apply no_cookie_setArg; try reflexivity; try apply no_cookie_del; exact Hnc|exact Hun]). }
@@ -719,6 +721,8 @@ Theorem Qstep_sim nonorm q m o :
   Qsim nonorm (qstep29 q o) (sstep HReq nonorm m (sop_of o)).
 Proof.
   intros HS Hk Hwf. pose proof HS as (Hd & Hds & Hv & Hc & Hig & Hnc & Hun).
+  assert (Hte : peekAllArgs (hh (qh q)) strTransferEncoding = []).
+  { change (peekAllArgs (hh (qh q)) strTransferEncoding) with (qvals q strTransferEncoding). rewrite Hv. now apply Hig. }
   pose proof (qstep29_flags nonorm q o Hd Hds Hnc Hk) as Hfl. unfold qflags in Hfl.
   split; [congruence|split; [congruence|]].
   rewrite (qstep29_exact nonorm q o Hd Hds Hk).
